@@ -205,6 +205,8 @@ struct Sim<'a> {
     /// multi-action transactions accepted by some CheckTx and not (yet) executed successfully
     pending_bundles: BTreeSet<[u8; 32]>,
     cur_block_op: u32,
+    /// full verifiable key space after the previous decided block
+    prev_dump: BTreeMap<String, Vec<u8>>,
 }
 
 fn vote_flag(f: u8) -> BlockSignatureInfo {
@@ -321,6 +323,7 @@ impl<'a> Sim<'a> {
             sent_packets: Vec::new(),
             pending_bundles: BTreeSet::new(),
             cur_block_op: 0,
+            prev_dump: dump.clone(),
         };
         super::ibc_stub::enable(true);
         sim.prev_totals = sim.totals(&ledger);
@@ -1272,6 +1275,8 @@ impl<'a> Sim<'a> {
         let sudo_before = self.model.sudo;
         self.model.begin_block();
         let mut vkeys_touched: BTreeMap<Addr, u32> = BTreeMap::new();
+        let mut signers: BTreeSet<Addr> = BTreeSet::new();
+        let mut ok_kinds: BTreeSet<&'static str> = BTreeSet::new();
         for (i, raw) in parsed.user_submitted_transactions.iter().enumerate() {
             let result = &resp.tx_results[injected + i];
             let Ok(tx) = decode_tx(raw) else {
@@ -1286,6 +1291,10 @@ impl<'a> Sim<'a> {
                 }
             }
             if result.code.is_ok() {
+                signers.insert(*tx.address_bytes());
+                for a in tx.actions() {
+                    ok_kinds.insert(action_kind(a));
+                }
                 let view = TxView { tx: &tx, id };
                 let before = findings.len();
                 let expected_fees = self.model.apply_successful_tx(&view, &mut findings);
@@ -1326,6 +1335,8 @@ impl<'a> Sim<'a> {
         // ---- real state vs model -----------------------------------------------------------
         let dump = world::dump_state(&self.nodes[witness].storage).await;
         let real = parse_ledger(&dump);
+        self.check_write_set(h, &dump, &ok_kinds, &signers, parsed.extended_commit_info_with_proof.as_ref().is_some_and(|e| !e.extended_commit_info().extended_commit_info.votes.is_empty()));
+        self.prev_dump = dump.clone();
         self.compare_ledger(h, &real);
         self.check_conservation(h, &real);
         self.compare_privileged(h, witness).await;
@@ -1581,6 +1592,65 @@ impl<'a> Sim<'a> {
             self.viol.push("C07", "rollup-data-differs-from-block", "celestia-split", step, format!("h={h}: split_for_celestia yields [{}], expected [{}]", describe(&got), describe(&expected)));
         }
         self.stats.probe("served.checked");
+    }
+
+    /// C02/C03: every verifiable key that changed in this block must be licensed by a successful
+    /// action of the block (or by block machinery: height/time, upgrades, oracle prices).
+    fn check_write_set(&mut self, h: u64, dump: &BTreeMap<String, Vec<u8>>, ok: &BTreeSet<&'static str>, signers: &BTreeSet<Addr>, prices_applied: bool) {
+        use base64::Engine as _;
+        let upgrade_height = self.cfg.aspen == Some(h) || self.cfg.blackburn == Some(h);
+        let has = |k: &str| ok.contains(k);
+        let any_bridge_op = has("InitBridge") || has("BridgeSudoChange") || has("BridgeUnlock") || has("BridgeTransfer") || has("Ics20Withdrawal") || has("BridgeLock") || has("Ibc");
+        let ibc_op = has("Ics20Withdrawal") || has("Ibc");
+        let keys: BTreeSet<&String> = dump.keys().chain(self.prev_dump.keys()).collect();
+        let mut bad: Vec<String> = Vec::new();
+        for k in keys {
+            if dump.get(k) == self.prev_dump.get(k) {
+                continue;
+            }
+            let licensed = if k == "app/block_height" || k == "app/block_timestamp" || k.starts_with("penumbra_consensus_states/") {
+                // block machinery (the IBC component records this chain's own consensus state per height)
+                true
+            } else if k.starts_with("app/") || k.starts_with("upgrades/") {
+                upgrade_height
+            } else if let Some(rest) = k.strip_prefix("accounts/") {
+                if rest.ends_with("/nonce") {
+                    // only the signer of a successful transaction
+                    rest.split('/').next().and_then(|b| base64::engine::general_purpose::URL_SAFE.decode(b).ok()).and_then(|a| <[u8; 20]>::try_from(a.as_slice()).ok()).is_some_and(|a| signers.contains(&a))
+                } else {
+                    true // balances: compared with the reference ledger
+                }
+            } else if k == "authority/sudo" {
+                has("SudoChange")
+            } else if k.starts_with("authority/") {
+                has("ValidatorUpdate") || upgrade_height
+            } else if k == "ibc/sudo" {
+                has("IbcSudoChange")
+            } else if k.starts_with("ibc/relayer/") {
+                has("RelayerChange")
+            } else if k.starts_with("ibc/") || k.starts_with("ibc-data/") {
+                ibc_op
+            } else if k.starts_with("fees/allowed_asset/") {
+                has("FeeAssetChange")
+            } else if k.starts_with("fees/") {
+                has("FeeChange")
+            } else if k.starts_with("bridge/") {
+                any_bridge_op || !signers.is_empty()
+            } else if k.starts_with("assets/") {
+                has("Ibc")
+            } else if k.starts_with("price_feed/") {
+                has("CurrencyPairs") || has("Markets") || prices_applied || upgrade_height
+            } else {
+                false
+            };
+            if !licensed {
+                bad.push(k.clone());
+            }
+        }
+        if !bad.is_empty() {
+            let class = bad[0].split('/').take(2).collect::<Vec<_>>().join("/");
+            self.viol.push("C02", "state-change-without-authorising-action", &class, self.step, format!("h={h}: keys changed without a successful action that may change them: {:?} (successful action kinds: {ok:?})", &bad[..bad.len().min(6)]));
+        }
     }
 
     fn observe_ibc_events(&mut self, h: u64, tx_id: &[u8; 32], result: &abci::types::ExecTxResult) {
